@@ -23,6 +23,7 @@ type FuncReport struct {
 	ExtUsed      []string
 	IfaceUsed    []string
 	TrustedUsed  []string
+	Assumed      []string
 	HavocAll     int
 	DeadEnds     int
 	Returns      int
@@ -81,6 +82,13 @@ func (P *Program) VerifyFunc(fn *ssa.Function, ct *Contract, full bool, pathCap 
 				st.add(t)
 			}
 		}
+		for _, rq := range ct.Assumes {
+			t, ok := x.evalSpec(st, rq.Expr, "pre")
+			if ok {
+				st.add(t)
+				x.assumedClauses = append(x.assumedClauses, relName(fn)+": "+rq.Text)
+			}
+		}
 		// bind check for loop clauses
 		for n := range ct.LoopInv {
 			if n < 1 || n > len(x.loops) {
@@ -114,6 +122,7 @@ func (P *Program) VerifyFunc(fn *ssa.Function, ct *Contract, full bool, pathCap 
 	rep.ExtUsed = sortedKeys(x.extUsed)
 	rep.IfaceUsed = sortedKeys(x.ifaceUsed)
 	rep.TrustedUsed = sortedKeys(x.trustedUsed)
+	rep.Assumed = x.assumedClauses
 	rep.HavocAll = x.havocAllCount
 	rep.DeadEnds = x.deadEnds
 	rep.Returns = x.returns
